@@ -125,6 +125,10 @@ package fai
 //@   ensures len(result) <= len(s)
 //@   ensures len(result) > 0 ==> (result[0] != 32 && result[0] != 9)
 //@ trusted func ext:bytes.Equal
+//@ trusted func ext:bytes.TrimSuffix
+//@   ensures len(result) <= len(s)
+//@ trusted func ext:bytes.TrimRight
+//@   ensures len(result) <= len(s)
 //@ trusted func ext:bytes.IndexAny
 //@   ensures 0 - 1 <= result && result < len(s)
 //@ trusted func ext:fmt.Errorf
